@@ -276,6 +276,14 @@ fn ops() -> Vec<Op> {
         let r = w.fx.node.check_onchain_tx(&tx, &[true], &t.prev_outs, &t.iuckeys, &t.opaths);
         json!({"ok": r.is_ok()})
     })));
+    v.push(("sign_onchain_tx", none(), Box::new(|w| {
+        let nctx = w.fx.node_ctx();
+        let mut t = TestFundingTxContext::new();
+        t.add_wallet_input(&nctx, SpendType::P2wpkh, 1, 1_000_000);
+        t.add_wallet_output(&nctx, SpendType::P2wpkh, 1, 999_000);
+        let tx = t.to_tx();
+        st(w.fx.node.unchecked_sign_onchain_tx(&tx, &t.ipaths, &t.prev_outs, t.iuckeys.clone()).map(|v| json!(v.len())))
+    })));
     v.push(("add_block", none(), Box::new(|w| {
         use lightning_signer::util::test_utils::make_testnet_header;
         let mut tracker = w.fx.node.get_tracker();
